@@ -351,6 +351,53 @@ def chain_case(order, acc: Acc):
                                     what=f"3-level chain, file order {order}: typed {typed!r}: expected {sorted(want)}, got {sorted(labels)}"))
 
 
+CLASH = {
+    "zqclash.f90": "module zqm_clash\n  implicit none\n  type :: zqpos\n    integer :: zqc_px, zqc_py\n  end type zqpos\n  type :: zqvel\n    integer :: zqc_vx\n  end type zqvel\n"
+                   "  type :: zqbody\n    type(zqpos) :: zqpos\n    integer :: zqvel\n    type(zqvel) :: zqv\n  contains\n    procedure :: zqb_show => zqs_show\n  end type zqbody\n"
+                   "contains\n  subroutine zqs_show(self)\n    class(zqbody) :: self\n    self%zqpos%zq\n  end subroutine zqs_show\nend module zqm_clash\n",
+    "zqclash_user.f90": "program zqp_clash\n  use zqm_clash\n  implicit none\n  type(zqbody) :: zqb\n  type(zqbody) :: zqarr(3)\n  zqb%zq\nend program zqp_clash\n",
+}
+CLASH_PROBES = [  # (file, line index, text before the cursor, expected member names)
+    ("zqclash_user.f90", 5, "  zqb%zqpos%", {"zqc_px", "zqc_py"}),
+    ("zqclash_user.f90", 5, "  zqb%zqv%", {"zqc_vx"}),
+    ("zqclash_user.f90", 5, "  zqarr(2)%zqpos%", {"zqc_px", "zqc_py"}),
+    ("zqclash_user.f90", 5, "  zqb%", {"zqpos", "zqvel", "zqv", "zqb_show"}),
+    ("zqclash.f90", 18, "    self%zqpos%", {"zqc_px", "zqc_py"}),
+    ("zqclash.f90", 18, "    self%zqv%", {"zqc_vx"}),
+]
+
+
+def clash_case(k, acc: Acc):
+    """Components live in a name space of their own: a component may be named like a type (even like its own)."""
+    fname, ln, before, want_all = CLASH_PROBES[k]
+    sc = worker_scratch("c12")
+    sc.wipe()
+    root = os.path.realpath(os.path.join(sc.path, "w"))
+    os.makedirs(root)
+    for n, t in CLASH.items():
+        with open(os.path.join(root, n), "w") as f:
+            f.write(t)
+    s = Server([])
+    s.initialize(root)
+    path = os.path.join(root, fname)
+    s.open(path)
+    lines = CLASH[fname].split("\n")
+    for typed in ("zq", "zqc", "ZQC_", "zqv", "zqp"):
+        new = list(lines)
+        new[ln] = before + typed
+        s.change(path, [{"text": "\n".join(new)}])
+        r = s.result("textDocument/completion", Server.tdpp(path, ln, len(new[ln])))
+        labels = {c["label"].lower() for c in r} if isinstance(r, list) else set()
+        want = {m for m in want_all if m.startswith(typed.lower())}
+        acc.case(nontrivial_key=("clash", k, typed) if want else None, outcome=("clash", len(want)))
+        acc.count("completions")
+        if labels != want:
+            acc.violation(Violation("completion", {"family": "completion", "context": "member_name_clash", "access": "clash", "scope": fname,
+                                                   "upper": typed != typed.lower(), "obs": "missing" if want - labels else "extra", "class": "member"},
+                                    {"probe": k, "typed": typed, "context": "member_name_clash", "line": new[ln]}, sorted(want), sorted(labels),
+                                    what=f"{new[ln].strip()!r}: expected {sorted(want)}, got {sorted(labels)}"))
+
+
 def main(ctx):
     ctx.rule = ("9 access variants x 3 using scopes; per workspace up to 9 contexts (body, body with text after the cursor, CALL, "
                 "USE, USE ONLY:, TYPE(, CLASS(, obj%, obj%comp%) x every prefix from the stem 'zq' up to the full name of every "
@@ -366,6 +413,8 @@ def main(ctx):
 
     cacc = core.pmap(chain_case, list(itertools.permutations(sorted(CHAIN))), chunk=1, budget_s=120, label="C12/chain")
     acc.merge(cacc)
+    kacc = core.pmap(clash_case, list(range(len(CLASH_PROBES))), chunk=1, budget_s=120, label="C12/clash")
+    acc.merge(kacc)
     ctx.add_family("completion", acc)
 
 
